@@ -26,6 +26,7 @@ Inductive instr : Type :=
 | IBuildStruct (sidx n : nat)
 | IAccessField (idx : nat)
 | IBuildList (n : nat)
+| IPrintString (k : nat)
 | IReturn
 | ICompilePanic      (* the compiler hit unreachable!() / unwrap() on None *)
 | IUnmodelled.       (* a value did not fit its u16 cast: not modelled further *)
@@ -36,7 +37,7 @@ Definition isize (i : instr) : nat :=
   | IUn (UFact _) => 3
   | IUn _ => 1
   | ILoadConstant _ | IGetLocal _ | IGetUpvalue _ | IJumpIfFalse _ | IJump _
-  | IJoinString _ | IAccessField _ | IBuildList _ => 3
+  | IJoinString _ | IAccessField _ | IBuildList _ | IPrintString _ => 3
   | ICall _ _ | ICallCallable _ _ | IBuildStruct _ _ => 5
   | IFFICallFunction _ _ _ | IFFICallProcedure _ _ _ => 7
   end.
